@@ -187,6 +187,7 @@ func c12AddPeer(t *testing.T, s *BgpServer, addr string, as uint32, cfg c12Cfg) 
 		ap.AfiSafis = append(ap.AfiSafis, &api.AfiSafi{
 			Config:                   &api.AfiSafiConfig{Family: apiutil.ToApiFamily(rf.Afi(), rf.Safi()), Enabled: true},
 			MpGracefulRestart:        &api.MpGracefulRestart{Config: &api.MpGracefulRestartConfig{Enabled: f.mpCfg}},
+			AddPaths:                 &api.AddPaths{Config: &api.AddPathsConfig{Receive: true}}, // several paths per prefix from this neighbour
 			LongLivedGracefulRestart: &api.LongLivedGracefulRestart{Config: &api.LongLivedGracefulRestartConfig{Enabled: f.llCfg, RestartTime: 1000}},
 		})
 	}
@@ -273,6 +274,11 @@ func c12Open(c c12Caps, fams []c12FamCfg) *bgp.BGPMessage {
 	for _, id := range c.mp {
 		caps = append(caps, bgp.NewCapMultiProtocol(c12Families[id]))
 	}
+	apt := []*bgp.CapAddPathTuple{}
+	for _, f := range fams {
+		apt = append(apt, bgp.NewCapAddPathTuple(c12Families[f.id], bgp.BGP_ADD_PATH_SEND))
+	}
+	caps = append(caps, bgp.NewCapAddPath(apt))
 	if c.gr {
 		tuples := []*bgp.CapGracefulRestartTuple{}
 		for _, t := range c.tuples {
@@ -472,7 +478,11 @@ func (e *c12Env) sleepTo(t int) {
 
 func (e *c12Env) tick(d int) { e.sleepTo(e.now + d) }
 
-func c12Prefix(fam, key int) (bgp.PathNLRI, netip.Addr) {
+// c12Prefix: the route key of the protocol is (prefix, path id): key = prefix index + 4 × (path id − 1).
+// The neighbour has ADD-PATH receive, so the paths of one prefix with different ids are separate
+// Adj-RIB-In entries that are announced, re-announced, withdrawn and purged independently.
+func c12Prefix(fam, routeKey int) (bgp.PathNLRI, netip.Addr) {
+	key, id := routeKey%4, uint32(routeKey/4+1)
 	var pfx netip.Prefix
 	var nh netip.Addr
 	switch fam {
@@ -484,7 +494,7 @@ func c12Prefix(fam, key int) (bgp.PathNLRI, netip.Addr) {
 		pfx, nh = netip.PrefixFrom(netip.AddrFrom4([4]byte{30, byte(key), 0, 0}), 16), netip.MustParseAddr("10.9.0.2")
 	}
 	n, _ := bgp.NewIPAddrPrefix(pfx)
-	return bgp.PathNLRI{NLRI: n}, nh
+	return bgp.PathNLRI{NLRI: n, ID: id}, nh
 }
 
 func (e *c12Env) update(m *bgp.BGPMessage) {
@@ -560,10 +570,13 @@ func c12PathToRoute(p *table.Path) c12Route {
 		}
 	}
 	pfx := p.GetNlri().String()
-	for k := 0; k < 16; k++ {
+	for k := 0; k < 4; k++ {
 		n, _ := c12Prefix(r.fam, k)
 		if n.NLRI.String() == pfx {
 			r.key = k
+			if id := int(p.RemoteID()); id > 1 {
+				r.key += 4 * (id - 1)
+			}
 		}
 	}
 	med, _ := p.GetMed()
@@ -1071,6 +1084,9 @@ func (ev c12Ev) line() string {
 	if ev.op == "del" {
 		return "del"
 	}
+	if ev.op == "partial" {
+		return fmt.Sprintf("(partial %d)", ev.a[0])
+	}
 	return fmt.Sprintf("ann %d %d %d %d %d %d", ev.a[0], ev.a[1], ev.a[2], ev.a[3], ev.a[4], ev.a[5])
 }
 
@@ -1181,6 +1197,12 @@ func c12GenHistory(r *vRand, cfg c12Cfg, maxEv int) []c12Ev {
 	// what the scripted peer has announced so far, per (family, prefix): a peer whose configuration did not
 	// change re-announces byte-identical routes after a restart (the normal case), so a large share of the
 	// announcements repeats an earlier one exactly (same attributes, same next hop)
+	// 65% of the histories: the peer announces up to three paths (path ids 1..3) per prefix; after a
+	// restart only some of them come back (the identical re-announcements pick (prefix, id) pairs at random)
+	pathIDs := 1
+	if r.chance(65) {
+		pathIDs = 3
+	}
 	type annKey struct{ fam, key int }
 	last := map[annKey][3]int{} // version, NO_LLGR, rejected (AS_PATH loop)
 	lastKeys := []annKey{}
@@ -1193,13 +1215,21 @@ func c12GenHistory(r *vRand, cfg c12Cfg, maxEv int) []c12Ev {
 				return
 			}
 		}
-		ver++
-		k := annKey{fam(), r.intn(3)}
-		if _, ok := last[k]; !ok {
-			lastKeys = append(lastKeys, k)
+		f0, pfx := fam(), r.intn(3)
+		ids := []int{r.intn(pathIDs)}
+		if pathIDs > 1 && r.chance(60) {
+			// the peer has several paths for the prefix: 2 or 3 path ids in a row
+			ids = []int{0, 1, 2}[:2+r.intn(2)]
 		}
-		last[k] = [3]int{ver, c12b(r.chance(25)), c12b(r.chance(18))}
-		evs = append(evs, c12Ev{op: "ann", a: [6]int{k.fam, k.key, ver, last[k][1], 0, last[k][2]}})
+		for _, id := range ids {
+			ver++
+			k := annKey{f0, pfx + 4*id}
+			if _, ok := last[k]; !ok {
+				lastKeys = append(lastKeys, k)
+			}
+			last[k] = [3]int{ver, c12b(r.chance(25)), c12b(r.chance(18))}
+			evs = append(evs, c12Ev{op: "ann", a: [6]int{k.fam, k.key, ver, last[k][1], 0, last[k][2]}})
+		}
 	}
 	connect := func() {
 		for state < 3 {
@@ -1214,6 +1244,17 @@ func c12GenHistory(r *vRand, cfg c12Cfg, maxEv int) []c12Ev {
 		est = true
 		if cfg.lr {
 			cands = append(cands, now+cfg.deferral)
+		}
+		// partial table transfer of an ADD-PATH peer: of every prefix with several paths only ONE comes back
+		// (decided at run time on what the Adj-RIB-In holds, see "partial") and End-of-RIB follows at once
+		if pathIDs > 1 && len(lastKeys) > 1 && r.chance(50) {
+			evs = append(evs, c12Ev{op: "partial", a: [6]int{r.intn(3)}})
+			for _, f := range caps.mp {
+				if r.chance(85) {
+					evs = append(evs, c12Ev{op: "eor", a: [6]int{f}})
+				}
+			}
+			return
 		}
 		// table transfer of a restarted peer with unchanged configuration: the same routes again
 		if len(lastKeys) > 0 && r.chance(70) {
@@ -1240,7 +1281,7 @@ func c12GenHistory(r *vRand, cfg c12Cfg, maxEv int) []c12Ev {
 			case x < 40:
 				announce()
 			case x < 47:
-				evs = append(evs, c12Ev{op: "wd", a: [6]int{fam(), r.intn(3)}})
+				evs = append(evs, c12Ev{op: "wd", a: [6]int{fam(), r.intn(3) + 4*r.intn(pathIDs)}})
 			case x < 67:
 				evs = append(evs, c12Ev{op: "eor", a: [6]int{fam()}})
 			case x < 80:
@@ -1316,7 +1357,42 @@ func c12RunHistory(t *testing.T, o *vOut, cfg c12Cfg, evs []c12Ev, corpus string
 		}
 		o.op("%s", hdr.String())
 		log := []string{hdr.String()}
-		for _, ev := range evs {
+		evs := append([]c12Ev{}, evs...)
+		for i := 0; i < len(evs); i++ {
+			ev := evs[i]
+			if ev.op == "partial" {
+				// partial table transfer of an ADD-PATH peer, decided on what the Adj-RIB-In REALLY holds now: of
+				// every prefix with several stale paths exactly one comes back, byte-identical — the path stored
+				// first (which 0), last (1) or in between (2).  Expanded into ordinary `ann` events.
+				anns := []c12Ev{}
+				if e.fsmState == bgp.BGP_FSM_ESTABLISHED {
+					type pk struct{ fam, pfx int }
+					stored := map[pk][]c12Route{}
+					order := []pk{}
+					for _, path := range e.p.adjRibIn.PathList(e.p.configuredRFlist(), false) { // storage order
+						rt := c12PathToRoute(path)
+						k := pk{rt.fam, rt.key % 4}
+						if _, ok := stored[k]; !ok {
+							order = append(order, k)
+						}
+						stored[k] = append(stored[k], rt)
+					}
+					for _, k := range order {
+						rs := stored[k]
+						if len(rs) < 2 || !rs[0].stale || rs[0].nLL > 0 {
+							continue
+						}
+						rt := rs[[]int{0, len(rs) - 1, len(rs) / 2}[ev.a[0]%3]]
+						if rt.nLL > 0 {
+							continue
+						}
+						anns = append(anns, c12Ev{op: "ann", a: [6]int{rt.fam, rt.key, rt.ver, c12b(rt.noLL), 0, c12b(rt.rej)}})
+						o.stat(fmt.Sprintf("addpath_partial_return_%s", []string{"first", "last", "middle"}[ev.a[0]%3]), 1)
+					}
+				}
+				evs = append(evs[:i+1], append(anns, evs[i+1:]...)...)
+				continue
+			}
 			line := ev.line()
 			log = append(log, line)
 			o.op("%s", line)
@@ -1568,6 +1644,11 @@ var c12Corpus = []struct{ name, hist string }{
 	{"deleted-while-restart-timer-runs", "reset 1 0 0 33 0 1 0 1; goto 1 0; goto 2 0; goto 3 0; est 1 0 0 20 1 0 0 0 1 0 0; ann 0 1 2 0 0 0; ann 0 2 3 0 0 1; loss 0 0 0; tick 5; del; tick 30; goto 1 0; goto 2 0; goto 3 0; est 1 0 0 20 1 0 0 0 1 0 0; ann 0 1 4 0 0 0; eor 0"},
 	{"deleted-during-the-long-lived-period", "reset 1 0 1 33 0 1 0 1; goto 1 0; goto 2 0; goto 3 0; est 1 0 0 7 1 0 1 1 0 50 1 0 0; ann 0 1 2 0 0 0; loss 0 0 0; tick 10; del; tick 60"},
 	{"deleted-while-established-and-resynchronizing", "reset 1 0 0 33 0 1 0 1; goto 1 0; goto 2 0; goto 3 0; est 1 0 0 20 1 0 0 0 1 0 0; ann 0 1 2 0 0 0; loss 0 0 0; goto 1 0; goto 2 0; goto 3 0; est 1 0 0 20 1 0 0 0 1 0 0; ann 0 2 3 0 0 0; del; tick 30"},
+	{"add-path-only-the-first-path-comes-back", "reset 1 0 0 33 0 1 0 1; goto 1 0; goto 2 0; goto 3 0; est 1 0 0 20 1 0 0 0 1 0 0; ann 0 1 2 0 0 0; ann 0 5 3 0 0 0; ann 0 9 4 0 0 0; eor 0; loss 0 0 0; tick 5; goto 1 0; goto 2 0; goto 3 0; est 1 0 0 20 1 0 0 0 1 0 0; ann 0 1 2 0 0 0; eor 0; tick 30"},
+	{"add-path-only-the-middle-path-comes-back", "reset 1 0 0 33 0 1 0 1; goto 1 0; goto 2 0; goto 3 0; est 1 0 0 20 1 0 0 0 1 0 0; ann 0 1 2 0 0 0; ann 0 5 3 0 0 0; ann 0 9 4 0 0 0; loss 0 0 0; goto 1 0; goto 2 0; goto 3 0; est 1 0 0 20 1 0 0 0 1 0 0; ann 0 5 3 0 0 0; eor 0"},
+	{"add-path-only-the-last-path-comes-back", "reset 1 0 0 33 0 1 0 1; goto 1 0; goto 2 0; goto 3 0; est 1 0 0 20 1 0 0 0 1 0 0; ann 0 1 2 0 0 0; ann 0 5 3 0 0 0; ann 0 9 4 0 0 1; loss 0 0 0; goto 1 0; goto 2 0; goto 3 0; est 1 0 0 20 1 0 0 0 1 0 0; ann 0 9 4 0 0 1; eor 0"},
+	{"add-path-a-new-path-id-comes-back", "reset 1 0 0 33 0 1 0 1; goto 1 0; goto 2 0; goto 3 0; est 1 0 0 20 1 0 0 0 1 0 0; ann 0 1 2 0 0 0; ann 0 5 3 0 0 0; loss 0 0 0; goto 1 0; goto 2 0; goto 3 0; est 1 0 0 20 1 0 0 0 1 0 0; ann 0 13 5 0 0 0; eor 0"},
+	{"add-path-first-path-back-then-llgr-timer", "reset 1 0 1 33 0 1 0 1; goto 1 0; goto 2 0; goto 3 0; est 1 0 0 7 1 0 1 1 0 25 1 0 0; ann 0 1 2 0 0 0; ann 0 5 3 0 0 0; loss 0 0 0; tick 10; goto 1 0; goto 2 0; goto 3 0; est 1 0 0 7 1 0 1 1 0 25 1 0 0; ann 0 1 2 0 0 0; tick 30"},
 	{"identical-reannouncement-is-fresh", "reset 1 0 0 33 0 1 0 1; goto 1 0; goto 2 0; goto 3 0; est 1 0 0 20 1 0 0 0; ann 0 1 2 0 0; ann 0 2 3 0 0; eor 0; loss 0; tick 5; goto 1 0; goto 2 0; goto 3 0; est 1 0 0 20 1 0 0 0; ann 0 1 2 0 0; eor 0; tick 30"},
 	{"identical-reannouncement-second-loss", "reset 1 0 0 33 0 1 0 1; goto 1 0; goto 2 0; goto 3 0; est 1 0 0 20 1 0 0 0; ann 0 1 2 0 0; loss 0; goto 1 0; goto 2 0; goto 3 0; est 1 0 0 20 1 0 0 0; ann 0 1 2 0 0; loss 2; goto 1 0; goto 2 0; goto 3 0; est 1 0 0 20 1 0 0 0; ann 0 1 2 0 0; eor 0"},
 	{"identical-reannouncement-under-llgr", "reset 1 0 1 33 0 2 0 1 1 1; goto 1 0; goto 2 0; goto 3 0; est 1 0 0 7 2 0 1 1 1 0 50; ann 0 1 2 0 0; ann 1 1 3 0 0; loss 0; tick 3; goto 1 0; goto 2 0; goto 3 0; est 1 0 0 7 2 0 1 1 1 0 50; ann 1 1 3 0 0; loss 0; tick 10; goto 1 0; goto 2 0; goto 3 0; est 1 0 0 7 2 0 1 1 1 0 50; ann 0 1 2 0 0; tick 50; eor 0; eor 1"},
